@@ -7,10 +7,10 @@ func init() {
 		ID: "C17",
 		Explanation: "Epoch timers and hook containment: decides that the per-timer callback of the epochs BeginBlocker ticks only when block time is after the current epoch's end (or counting has not started), never before the start time, at most once per block (loop-free callback), " +
 			"advances the epoch start by exactly one duration from the previous start (never from block time), signals end-of-epoch n before incrementing, persists, then signals start-of-epoch n+1; that every subscriber is run through the cache-context wrapper with the cache context, " +
-			"whose write-back happens only on the no-error edge, whose recover handler re-panics exactly for out-of-gas errors and otherwise converts the panic into an error; and that the subscriber loop visits every subscriber.",
+			"whose write-back happens only on the no-error edge, whose recover handler re-panics exactly for out-of-gas errors and otherwise converts the panic into an error; and that the subscriber loop visits every subscriber. Round 8: genesis import hands every epoch to AddEpochInfo unmodified, and the start time is defaulted only when it is the zero time.",
 		NotCovered:  []string{"'exactly once' over block-time sequences as a trace property", "grid start + n*duration as a number over histories"},
 		Assumptions: []string{"sdk.Context.CacheContext isolates writes until write() is called (SDK)"},
-		MinObl:      58,
+		MinObl:      60,
 		Run:         runC17,
 	})
 }
